@@ -85,8 +85,17 @@ type LemmaParam struct {
 	Sort string
 }
 
+type Macro struct {
+	Name   string
+	Params []string
+	Body   *SExpr
+	File   string
+	Line   int
+}
+
 type Contracts struct {
 	Funcs  map[string]*FuncContract // key: pkg + "." + name
+	Macros map[string]*Macro
 	Lemmas map[string]*Lemma
 	Order  []string
 	Files  []string
@@ -96,13 +105,13 @@ var clauseKeywords = map[string]bool{
 	"func": true, "lemma": true, "axiom": true, "mode": true, "prelude": true, "requires": true, "ensures": true, "panics": true,
 	"maypanic": true, "modifies": true, "loop": true, "invariant": true, "decreases": true, "unroll": true, "witness": true,
 	"let": true, "postlet": true, "trusted": true, "inline": true, "pure": true, "use": true, "postuse": true, "opaque": true,
-	"havoc": true, "nosafety": true, "assume": true, "param": true, "loopmodifies": true, "looplet": true, "bits": true, "end": true,
+	"havoc": true, "nosafety": true, "assume": true, "param": true, "loopmodifies": true, "looplet": true, "bits": true, "end": true, "macro": true, "cases": true,
 }
 
 var tagRe = regexp.MustCompile(`^([a-z]+)(\[([A-Za-z0-9_,]+)\])?(\s+|$)`)
 
 func LoadContracts(repo string, overlay map[string][]byte) (*Contracts, error) {
-	cs := &Contracts{Funcs: map[string]*FuncContract{}, Lemmas: map[string]*Lemma{}}
+	cs := &Contracts{Funcs: map[string]*FuncContract{}, Lemmas: map[string]*Lemma{}, Macros: map[string]*Macro{}}
 	files, _ := filepath.Glob(filepath.Join(repo, "*", "contracts_verif.go"))
 	more, _ := filepath.Glob(filepath.Join(repo, "*", "*", "contracts_verif.go"))
 	files = append(files, more...)
@@ -206,6 +215,31 @@ func (cs *Contracts) parseFile(file, pkg, src string) error {
 			}
 			cs.Funcs[key] = fc
 			cs.Order = append(cs.Order, key)
+			continue
+		case "macro":
+			// macro name(a, b) = expr
+			i := strings.Index(r.text, "=")
+			head := strings.TrimSpace(r.text[:i])
+			j := strings.Index(head, "(")
+			if i < 0 || j < 0 {
+				return fmt.Errorf("%s:%d: bad macro", file, r.line)
+			}
+			m := &Macro{Name: strings.TrimSpace(head[:j]), File: file, Line: r.line}
+			for _, p := range strings.Split(strings.TrimSuffix(strings.TrimSpace(head[j+1:]), ")"), ",") {
+				if p = strings.TrimSpace(p); p != "" {
+					m.Params = append(m.Params, p)
+				}
+			}
+			e, err := ParseSpec(strings.TrimSpace(r.text[i+1:]))
+			if err != nil {
+				return fmt.Errorf("%s:%d: %v", file, r.line, err)
+			}
+			m.Body = e
+			if _, dup := cs.Macros[m.Name]; dup {
+				return fmt.Errorf("%s:%d: duplicate macro %s", file, r.line, m.Name)
+			}
+			cs.Macros[m.Name] = m
+			fc, lm, loop = nil, nil, nil
 			continue
 		case "lemma", "axiom":
 			// lemma name(x Int, y Int)
